@@ -377,7 +377,7 @@ Proof.
   destruct (register_oneofs_origin m Hm _ _ _ _ _ (fun o Ho => Ho) HI Ereg) as [HIa Hexa].
   destruct (fields_loop D rec m sta exs (m_fields m)) as [[[stb exs2] ps2]| | |] eqn:Ef; cbn [obind] in H; try discriminate.
   destruct (fields_loop_origin rec HrecO m _ _ _ _ _ _ (fun f Hf => Hf) HIa Hexa Ef) as (HIb & Hexb & Hps).
-  destruct (existsb ex_pending exs2); [discriminate|]. inversion H; subst st1 ps.
+  destruct (existsb ex_pending exs2); [discriminate|]. destruct (negb (exs_names_ok exs2)); [discriminate|]. inversion H; subst st1 ps.
   split; [apply (finish_oneofs_origin m); assumption|exact Hps].
 Qed.
 
@@ -686,15 +686,17 @@ Proof.
 Qed.
 End Final.
 
+(* split names distinct, enums non-empty, field numbers distinct per message (protodesc guarantees the
+   numbers). Nothing about JSON names any more: the reader checks the property names itself (07ed85e). *)
 Definition wf_paths (D : desc) : Prop :=
-  wf_desc D /\ forall m, In m (d_msgs D) -> NoDup (map f_num (m_fields m)).
+  wf_keys D /\ forall m, In m (d_msgs D) -> NoDup (map f_num (m_fields m)).
 
 (* C18 clause 2 for every well-formed descriptor set: after a successful reflection every entry of
    the set has pairwise distinct property names and every recorded proto field path resolves, in
    the message the schema describes, to a field of the matching kind *)
 Theorem reflect_consistent D fs S : wf_paths D -> reflect D fs = Ok S -> set_consistent D S = true.
 Proof.
-  intros [[Hwk Hj] Hnum] HS.
+  intros [Hwk Hnum] HS.
   destruct (reflect_ok_guarantees D Hwk fs S HS) as (_ & _ & Hcl & Hnames & Hnp).
   pose proof (reflect_final D Hwk fs) as Hfin. rewrite HS in Hfin. destruct Hfin as [(HI & _ & Hnd) _].
   pose proof (reflect_origin D fs S HS) as HO.
@@ -706,7 +708,7 @@ Proof.
     destruct (lookup S k2) as [[|r2]|]; try discriminate. eauto. }
   unfold set_consistent. apply forallb_forall. intros [k e] Hin. cbn [fst snd].
   pose proof (lookup_In S Hnd k e Hin) as Hl. destruct e as [|r]; [exfalso; apply (Hnp k Hl)|].
-  apply (entry_consistent_of D Hwk Hnum S HO HI Hclosed (Hnames Hj) k r Hl).
+  apply (entry_consistent_of D Hwk Hnum S HO HI Hclosed Hnames k r Hl).
 Qed.
 
 (* a decision procedure for wf_paths *)
@@ -726,6 +728,6 @@ Definition wf_paths_b (D : desc) : bool :=
   wf_desc_b D && forallb (fun m => nodup_N (map f_num (m_fields m))) (d_msgs D).
 Lemma wf_paths_b_sound D : wf_paths_b D = true -> wf_paths D.
 Proof.
-  unfold wf_paths_b. intros H. apply andb_prop in H as [H1 H2]. split; [apply wf_desc_b_sound; exact H1|].
+  unfold wf_paths_b. intros H. apply andb_prop in H as [H1 H2]. split; [exact (proj1 (wf_desc_b_sound D H1))|].
   intros m Hm. apply nodup_N_NoDup. exact (proj1 (forallb_forall _ _) H2 m Hm).
 Qed.
